@@ -85,6 +85,12 @@ func c17EndToEnd(c *vk.Ctx) {
 		for i := 0; i < 500 && rec != nil && len(rec.Snap().Auth) == 0; i++ {
 			time.Sleep(2 * time.Millisecond)
 		}
+		if rec == nil || len(rec.Snap().Auth) == 0 {
+			c.Inconclusive("c17 e2e: the connection did not authenticate in time (loaded machine)")
+			cl.Conn.Close()
+			rig.Close(5 * time.Second)
+			continue
+		}
 		clk.Advance(40 * time.Second)
 		want[k.ID] += 40
 		ok := expect("authenticated connection open for 40 s", want)
